@@ -410,14 +410,16 @@ class RequestWideParams(object):
         # but when limit is repeated it has only seen the last value and
         # we use the first.
         if limit:
+            first_limit = limit[0]
             try:
-                limit = int(limit[0])
+                limit = int(first_limit)
                 if limit < 1:
                     raise ValueError()
             except ValueError:
                 raise webob.exc.HTTPBadRequest(
                     "Invalid query string parameters: Expected 'limit' "
-                    "parameter to be a positive integer. Got: %s" % limit[0])
+                    "parameter to be a positive integer. Got: %s" %
+                    first_limit)
 
         # TODO(efried): Make it an error to specify group_policy more than once
         #  - maybe when we make it optional.
